@@ -51,7 +51,7 @@ Definition queue_events_ordered (q : qobs) : bool := increasing (event_numbers q
 Definition touched (cfg : config) (a : action) (qn : N) : bool :=
   match a with
   | Boot | Stop => true
-  | Finish q _ => N.eqb q qn
+  | Finish q _ | FinishWait q | Elapse q => N.eqb q qn
   | Tick c => existsb (fun hb => N.eqb (sb_cron (snd hb)) c && N.eqb (sb_queue (snd hb)) qn) (sched_bindings cfg)
   | KubeEv m _ => existsb (fun hb => N.eqb (kb_mon (snd hb)) m && N.eqb (kb_queue (snd hb)) qn) (kube_bindings cfg)
   end.
